@@ -396,10 +396,10 @@ func cmdLocals(args []string) {
 	}
 	byFile := map[string][]*Contract{}
 	for _, c := range L.CS.Order {
-		if len(c.Loops) > 0 && len(c.CurLocals) > 0 {
+		if (len(c.Loops) > 0 && len(c.CurLocals) > 0) || len(c.CurSig) > 1 {
 			byFile[c.File] = append(byFile[c.File], c)
 			if !*write {
-				fmt.Printf("%s: %s\n", c.FullName(), strings.Join(c.CurLocals, " "))
+				fmt.Printf("%s: sig %s | locals %s\n", c.FullName(), strings.Join(c.CurSig, " "), strings.Join(c.CurLocals, " "))
 			}
 		}
 	}
@@ -420,7 +420,7 @@ func cmdLocals(args []string) {
 		var out []string
 		var pending *Contract
 		for i, l := range lines {
-			if strings.HasPrefix(l, "//@   locals ") {
+			if strings.HasPrefix(l, "//@   locals ") || strings.HasPrefix(l, "//@   sig ") {
 				continue // rewritten below
 			}
 			out = append(out, l)
@@ -428,7 +428,12 @@ func cmdLocals(args []string) {
 				pending = c
 			}
 			if pending != nil && strings.HasPrefix(l, "//@   props ") {
-				out = append(out, "//@   locals "+strings.Join(pending.CurLocals, " "))
+				if len(pending.CurSig) > 1 {
+					out = append(out, "//@   sig "+strings.Join(pending.CurSig, " "))
+				}
+				if len(pending.Loops) > 0 && len(pending.CurLocals) > 0 {
+					out = append(out, "//@   locals "+strings.Join(pending.CurLocals, " "))
+				}
 				pending = nil
 			}
 		}
